@@ -54,6 +54,12 @@ func plans(id, tier string) (Plan, bool) {
 	case "C02":
 		return Plan{Level: "exploration", Jobs: []Job{
 			{Pkg: pkgV2, Harness: "c02_small", Shards: pick(8, 16)},
+			// the same scope over a vocabulary of 2- and 3-byte letters, and with the vocabulary's token
+			// ids placed around the UTF-16 surrogate range and U+FFFD (ids are handed to go-diff as runes)
+			{Pkg: pkgV2, Harness: "c02_small", Params: fmt.Sprintf("vocab=accented;maxlen=%d", pick(5, 8)), Shards: pick(8, 16)},
+			{Pkg: pkgV2, Harness: "c02_small", Params: fmt.Sprintf("dictoffset=55294;corpora=%d;maxlen=%d", pick(6, 16), pick(5, 7)), Shards: pick(2, 8)},
+			{Pkg: pkgV2, Harness: "c02_small", Params: fmt.Sprintf("dictoffset=57341;corpora=%d;maxlen=%d", pick(6, 16), pick(5, 7)), Shards: pick(2, 8)},
+			{Pkg: pkgV2, Harness: "c02_small", Params: fmt.Sprintf("dictoffset=65531;corpora=%d;maxlen=%d", pick(6, 16), pick(5, 7)), Shards: pick(2, 8)},
 			{Pkg: pkgV2, Harness: "c02_corpus", Params: "t=0.8", Shards: 16},
 		}}, true
 	case "C03":
